@@ -166,7 +166,8 @@ def check_detailed(case, rec):
     dep = np.asarray(hp, dtype=float) - P["tg"]
     dep_s = np.asarray(s, dtype=float) - P["tg"]
     # the departure is computed as (tg + x) - tg: allow the rounding of that round trip (ulp of tg per step)
-    ulp = 4e-15 * (abs(P["tg"]) + np.abs(dep) + np.abs(dep_s))
+    # ... plus the float64 summation allowance of the step (a departure of 3e-14 K can be the residue of terms of 300 K)
+    ulp = 4e-15 * (abs(P["tg"]) + np.abs(dep) + np.abs(dep_s)) + 512 * 2.220446049250313e-16 * np.asarray(A, dtype=float)
     if np.any(np.abs(dep_s - lam * dep) > 1e-9 * np.abs(lam * dep) + ulp * (1 + abs(lam))):
         i = int(np.argmax(np.abs(dep_s - lam * dep)))
         raise Violation(f"scaling the loads by {lam} scales the departure by {dep_s[i] / dep[i] if dep[i] else float('nan')} at step {i + 1}",
@@ -217,11 +218,20 @@ def check_simulate(case, rec):
             if hours.size == 0 or np.any(np.diff(np.concatenate(([0.0], hours))) <= 0):
                 rec.cls("hybrid_axis_not_increasing(skipped)")
                 return
-            mx, mn = guarded(ghe.simulate, method=TimestepType.HYBRID, what="simulate(HYBRID)")
+            try:
+                mx, mn = guarded(ghe.simulate, method=TimestepType.HYBRID, allow=(ValueError,), what="simulate(HYBRID)")
+            except ValueError:
+                # e.g. a horizon beyond the last long-time point ln(t/ts) = 3.003 for a shallow borehole: the tool rejects it
+                rec.cls("simulation_rejected(ValueError)")
+                return
             q = np.asarray(ghe.hybrid_load.load[2:], dtype=float) * 1000.0
             t = hours
         else:
-            mx, mn = guarded(ghe.simulate, method=TimestepType.HOURLY, what="simulate(HOURLY)")
+            try:
+                mx, mn = guarded(ghe.simulate, method=TimestepType.HOURLY, allow=(ValueError,), what="simulate(HOURLY)")
+            except ValueError:
+                rec.cls("simulation_rejected(ValueError)")
+                return
             years = case["months"] // 12
             q = -np.asarray(list(hourly) * years, dtype=float)
             t = np.arange(1, 8760 * years + 1, dtype=float)
